@@ -37,6 +37,21 @@ CLAIMED = {
     "C20": ("Lean 4 theorems on the error-context algebra and on context wrapping of every block (all programs), + differential comparison of the complete context chain of every failing run",
             "Kernel-checked: the four-way with_context algebra (innermost statement context wins, Other is wrapped, Cancelled passes); every error leaving a context-wrapped computation is Cancelled or carries a statement context, for every program; hence every error of a strict block and of a whole strict run (after the globals pre-check) is contexted (C20_strict_errors_contexted); the recorded statement location of a block statement is its own; lazy conflicts name both statements. Tie (hard): for fault-injected and naturally failing programs in both modes the complete chain of contexts (statement, stanza and source locations, node kind of every StatementContext) equals the model's; plus direct checks that the locations name a real stanza and a real node, and that the pretty rendering cites the DSL and source files.",
             "DESIGN.md section 7, C20"),
+    "C03": ("Lean 4 theorems on the match drivers of both modes (one block per reported match, stanza selected by pattern index, capture values by quantifier, no cross-talk, capture-table index round trip) + differential probe programs and try_visit_matches against independent per-stanza QueryCursor runs",
+            "Kernel-checked for every file and match list: strict runs exactly one block per (stanza, match) in file/match order; lazy runs exactly one block per merged match for the stanza at its pattern index; a capture evaluates through the running stanza's own quantifier table and the match only (no cross-talk), with the documented value shape, totally under tree-sitter's quantifier contract; name<->index of a duplicate-free capture table is a bijection. Tree-sitter's match lists are oracles. Tie: multi-stanza files from 30 query shapes with every capture probed into an attribute, both modes vs the model (which binds by name from the harness's own per-stanza cursor run); File/Stanza::try_visit_matches vs that run; the checker's recorded capture indices vs the queries' name tables; the merged-query = union contract is re-checked on every case.",
+            "DESIGN.md section 7, C03"),
+    "C04": ("Lean 4 theorems on the scoped-variable store (visible on the same node, untouched elsewhere, inherit-nearest, duplicates are errors in both modes) + differential scoped-variable-heavy programs in both modes",
+            "Kernel-checked for every store state: after a successful definition the value is found on that node (the store is keyed by node identity only); other nodes' variables are untouched; without `inherit` a node lacking the variable yields nothing, with `inherit` the nearest of node :: ancestors that has it; a second definition fails with DuplicateVariable and keeps the stored value; in lazy mode forcing two pairs with the same scope fails naming both statements. Tie: generated programs defining/reading scoped variables through different captures, list elements, nested scopes and inherit declarations, both modes, outcome class + error variant + graph against the model (store keyed by pre-order index; ancestor walk over exported parent links; id injectivity checked per tree).",
+            "DESIGN.md section 7, C04"),
+    "C08": ("Lean 4 proof that attribute assignment is permutation-invariant (success and resulting map), phase order and queue routing of the lazy graph + execution of ALL permutations of the stanzas of generated files",
+            "Kernel-checked: for every attribute set and assignment list, every permutation of the list succeeds iff the list does and yields the same map (C08_attrs_order_free, via refinement to a plain-map fold and a swap lemma); the evaluate phase runs edges, then attributes, then prints, then thunks, then scoped cells; statements are queued by kind only. The whole-program statement C08_full is stated, not proved; it is checked by executing every permutation (n! for n <= 4 quick / 5 thorough, sampled beyond) of every generated file lazily on the real code (success must coincide, graphs isomorphic) and comparing sampled permutations with the model.",
+            "DESIGN.md section 7, C08"),
+    "C10": ("Lean 4 theorems on the scan loops of both modes (selection = lexicographic minimum by (start, arm), candidates non-empty, one-iteration unfolding, strict advance) + differential scan programs against a reference arg-min loop and the model",
+            "Kernel-checked for every matcher (oracle), subject and arm list: the selected match is among the per-arm first matches and is the (start, arm)-lexicographic minimum; nothing selected iff no arm matches; every collected match is non-empty and an empty first match raises EmptyRegexCapture; $k binds the group text or the empty string; one iteration = poll, collect, stop or run the selected arm in a fresh scope and continue exactly after the match end, which is strictly further (termination is also forced by Lean's termination checker on the model); the lazy loop has the same shape over the same selection. Tie: generated regex arm lists (classes, alternation, optional groups, $, multi-byte, word-boundary, nullable) x subjects, nested scans, both modes: the recorded (arm, $0..$n) sequence against a reference loop over the real regex crate, and against the model.",
+            "DESIGN.md section 7, C10"),
+    "C16": ("Lean 4 theorems on the globals pre-check and lookup precedence + exhaustive enumeration of declaration sets x supply patterns x nesting x mode",
+            "Kernel-checked: a faulty first declaration (unsupplied without default, or */+ with a non-list) fails the run with that error before any poll or graph change, in both modes; a supplied value is never replaced by a default; a default is added exactly when nothing is supplied; the pre-check leaves the caller's layers untouched; a global evaluates to its effective value whatever the interpreter state, and cannot be hidden or assigned at run time. Tie: exhaustive product of 1-2 (quick) / 3 (thorough) declarations x {none,?,*,+} x default x 8 supply kinds x direct/nested Variables x both modes: expected outcome computed from the declarations, effective values read back at every block depth (if, for, scan arm, shorthand), caller's Variables compared before/after, static rules (duplicate, hide, set) rejected at load; all against the model as well.",
+            "DESIGN.md section 7, C16"),
 }
 
 NOT_YET = {}
